@@ -290,6 +290,10 @@ func init() {
 			specs = append(specs, TrajSpecs(r.ID, "map-grow-lim", 90, 51, 92, 40, 2, 256, []string{"t"}, []string{"crash", "ev:commit1"})...)
 			specs = append(specs, TrajSpecs(r.ID, "map-grow-desc", 90, 61, 92, 30, 2, 256, []string{"limM"}, []string{"crash", "ev:commit1"})...)
 			specs = append(specs, TrajSpecs(r.ID, "arr-append-lim", 70, 71, 72, 15, 2, 256, []string{"limA"}, []string{"crash", "ev:commit1"})...)
+			specs = append(specs, deepColdSpecs(r, []string{"crash", "ev:commit1"})...)
+			// collision groups inside maps whose root is an index slab (a removal can make a leaf GROW and split): every
+			// transition also with a commit placed before the operation, then commit and recovery
+			specs = append(specs, collMetaSpecs(r, []string{"crash", "coldop"})...)
 			// small trees, cold (every slab clean): shrinking overwrites and removals that borrow from / merge with a clean sibling
 			for _, sc := range []string{"map-grow-lim", "map-grow-desc", "arr-append-lim", "arr-mixed"} {
 				specs = append(specs, TrajSpecs(r.ID, sc, 20, 4, 17, 3, 2, 256, []string{"t", "limM"}, []string{"crash", "ev:commit1"})...)
@@ -345,6 +349,8 @@ func init() {
 			specs = append(specs, TrajSpecs(r.ID, "map-grow-lim", 90, 51, 92, 40, 1, 256, []string{"t", "limM"}, or)...)
 			specs = append(specs, TrajSpecs(r.ID, "map-grow-desc", 90, 11, 92, 40, 1, 256, []string{"t", "limM"}, or)...)
 			specs = append(specs, TrajSpecs(r.ID, "map-grow-desc", 90, 11, 12, 20, 2, 256, []string{"t", "limM"}, or)...)
+			specs = append(specs, deepColdSpecs(r, or)...)
+			specs = append(specs, collMetaSpecs(r, []string{"sem", "coldop"})...)
 			for _, sc := range []string{"map-grow-lim", "map-grow-desc", "arr-append-lim", "arr-mixed"} {
 				specs = append(specs, TrajSpecs(r.ID, sc, 20, 4, 17, 3, 2, 256, []string{"t", "limM"}, or)...)
 			}
@@ -368,4 +374,19 @@ func init() {
 		}
 		r.ExploreSpecs(specs)
 	}})
+}
+
+// deepColdSpecs: three-level trees whose every slab is clean (cold start from committed registers), one operation
+// deep: a removal / overwrite under a second-level index slab that neither underflows nor splits its leaf, and — maps
+// with a colliding pair in every third leaf — the removal of one member of an external collision group, which makes
+// its leaf GROW and split.  What such an operation must add to the write set is only visible after a reload.
+func deepColdSpecs(r *Run, or []string) []Spec {
+	var specs []Spec
+	specs = append(specs, TrajSpecs(r.ID, "arr-append-lim", 70, 56, 71, 7, 1, 256, []string{"t", "limA"}, or)...)
+	specs = append(specs, TrajSpecs(r.ID, "arr-mixed", 110, 90, 111, 10, 1, 256, []string{"t", "limA"}, or)...)
+	cg := TrajSpecs(r.ID, "map-coll-grow", 60, 9, 60, 3, 1, 256, []string{"t", "limM"}, or)
+	for i := range cg {
+		cg[i].Extra["allkeys"] = 1
+	}
+	return append(specs, cg...)
 }
